@@ -262,6 +262,45 @@ impl From<&Value> for Value {
     }
 }
 
+/// Compares an int with a double by the numbers they denote. Converting the int to a double
+/// first would round it above 2^53 and make distinct numbers compare equal.
+fn cmp_int_float(i: i64, f: f64) -> Option<Ordering> {
+    const TWO_POW_63: f64 = 9223372036854775808.0;
+    if f.is_nan() {
+        None
+    } else if f >= TWO_POW_63 {
+        Some(Ordering::Less)
+    } else if f < -TWO_POW_63 {
+        Some(Ordering::Greater)
+    } else {
+        // `f` is within the i64 range, so truncating it is exact; if the integral parts
+        // are equal the fractional part of `f` decides.
+        let t = f as i64;
+        Some(
+            i.cmp(&t)
+                .then_with(|| (t as f64).partial_cmp(&f).unwrap_or(Ordering::Equal)),
+        )
+    }
+}
+
+/// Compares a uint with a double by the numbers they denote, see [`cmp_int_float`].
+fn cmp_uint_float(u: u64, f: f64) -> Option<Ordering> {
+    const TWO_POW_64: f64 = 18446744073709551616.0;
+    if f.is_nan() {
+        None
+    } else if f >= TWO_POW_64 {
+        Some(Ordering::Less)
+    } else if f < 0.0 {
+        Some(Ordering::Greater)
+    } else {
+        let t = f as u64;
+        Some(
+            u.cmp(&t)
+                .then_with(|| (t as f64).partial_cmp(&f).unwrap_or(Ordering::Equal)),
+        )
+    }
+}
+
 impl PartialEq for Value {
     fn eq(&self, other: &Self) -> bool {
         match (self, other) {
@@ -285,15 +324,15 @@ impl PartialEq for Value {
                 .try_into()
                 .map(|a: u64| a == *b)
                 .unwrap_or(false),
-            (Value::Int(a), Value::Float(b)) => (*a as f64) == *b,
+            (Value::Int(a), Value::Float(b)) => cmp_int_float(*a, *b) == Some(Ordering::Equal),
             (Value::UInt(a), Value::Int(b)) => a
                 .to_owned()
                 .try_into()
                 .map(|a: i64| a == *b)
                 .unwrap_or(false),
-            (Value::UInt(a), Value::Float(b)) => (*a as f64) == *b,
-            (Value::Float(a), Value::Int(b)) => *a == (*b as f64),
-            (Value::Float(a), Value::UInt(b)) => *a == (*b as f64),
+            (Value::UInt(a), Value::Float(b)) => cmp_uint_float(*a, *b) == Some(Ordering::Equal),
+            (Value::Float(a), Value::Int(b)) => cmp_int_float(*b, *a) == Some(Ordering::Equal),
+            (Value::Float(a), Value::UInt(b)) => cmp_uint_float(*b, *a) == Some(Ordering::Equal),
             (_, _) => false,
         }
     }
@@ -322,7 +361,7 @@ impl PartialOrd for Value {
                     // If the i64 doesn't fit into a u64 it must be less than 0.
                     .unwrap_or(Ordering::Less),
             ),
-            (Value::Int(a), Value::Float(b)) => (*a as f64).partial_cmp(b),
+            (Value::Int(a), Value::Float(b)) => cmp_int_float(*a, *b),
             (Value::UInt(a), Value::Int(b)) => Some(
                 a.to_owned()
                     .try_into()
@@ -330,9 +369,9 @@ impl PartialOrd for Value {
                     // If the u64 doesn't fit into a i64 it must be greater than i64::MAX.
                     .unwrap_or(Ordering::Greater),
             ),
-            (Value::UInt(a), Value::Float(b)) => (*a as f64).partial_cmp(b),
-            (Value::Float(a), Value::Int(b)) => a.partial_cmp(&(*b as f64)),
-            (Value::Float(a), Value::UInt(b)) => a.partial_cmp(&(*b as f64)),
+            (Value::UInt(a), Value::Float(b)) => cmp_uint_float(*a, *b),
+            (Value::Float(a), Value::Int(b)) => cmp_int_float(*b, *a).map(Ordering::reverse),
+            (Value::Float(a), Value::UInt(b)) => cmp_uint_float(*b, *a).map(Ordering::reverse),
             _ => None,
         }
     }
